@@ -5,6 +5,7 @@ contains the two constant classifiers, and the generated metrics are affine in t
 -/
 import FairModel.Lemmas.Prelude
 import FairModel.Model.Threshold
+import FairModel.Lemmas.ThresholdSrc
 
 namespace Threshold
 open ThresholdGen
@@ -71,12 +72,14 @@ theorem insertDesc_sorted (r : Row) (l : List Row) (h : DescSorted l) : DescSort
     have hy := List.pairwise_cons.mp h
     split
     · next hlt =>
+      have hlt := (src_scoreBefore _ _).mp hlt
       refine List.pairwise_cons.mpr ⟨?_, h⟩
       intro z hz
       rcases List.mem_cons.mp hz with rfl | hz
       · exact le_of_lt hlt
       · exact le_trans (hy.1 z hz) (le_of_lt hlt)
     · next hlt =>
+      have hlt := fun h => hlt ((src_scoreBefore _ _).mpr h)
       refine List.pairwise_cons.mpr ⟨?_, ih hy.2⟩
       intro z hz
       rcases List.mem_cons.mp ((insertDesc_perm r ys).mem_iff.mp hz) with hz | hz
@@ -126,14 +129,14 @@ theorem sweepAux_sound (suf : List Row) : ∀ (pre : List Row) (c0 c1 : Nat),
     unfold sweepAux at hs
     cases rest with
     | nil =>
-      simp only [List.mem_singleton] at hs
+      simp only [List.mem_singleton, src_thrSentinel] at hs
       subst hs
       refine ⟨?_, ?_, ?_⟩
       · simp only [Thr.below, Bool.and_true]; exact hc0
       · simp only [Thr.below, Bool.and_true]; exact hc1
       · intro x _; rfl
     | cons r' rest' =>
-      simp only at hs
+      simp only [src_midThreshold] at hs
       have hrec : ∀ s ∈ sweepAux (r' :: rest') (if r.label then c0 else c0 + 1) (if r.label then c1 + 1 else c1),
           StepSound (pre ++ r :: r' :: rest') s := by
         intro s hs
@@ -197,6 +200,8 @@ theorem StepSound.of_perm {L L' : List Row} (h : L.Perm L') {s : Thr × Nat × N
 /-- every sweep step counts exactly the rows above its threshold, and no score equals a threshold -/
 theorem sweepSteps_sound (rows : List Row) : ∀ s ∈ sweepSteps rows, StepSound rows s := by
   intro s hs
+  unfold sweepSteps at hs
+  rw [src_thrInitial] at hs
   rcases List.mem_cons.mp hs with rfl | hs
   · refine ⟨?_, ?_, ?_⟩
     · simp [Thr.below]
@@ -212,7 +217,7 @@ theorem sweepAux_has_ninf (l : List Row) (hne : l ≠ []) : ∀ c0 c1, ∃ a b, 
     intro c0 c1
     unfold sweepAux
     cases rest with
-    | nil => exact ⟨_, _, List.mem_singleton.mpr rfl⟩
+    | nil => exact ⟨_, _, List.mem_singleton.mpr (by rw [src_thrSentinel])⟩
     | cons r' rest' =>
       simp only
       obtain ⟨a, b, hab⟩ := ih (by simp) (if r.label then c0 else c0 + 1) (if r.label then c1 + 1 else c1)
@@ -240,7 +245,7 @@ theorem sweepSteps_has_ninf (rows : List Row) (hne : rows ≠ []) :
   rw [← ha, ← hb]; exact hmem
 
 theorem sweepSteps_has_pinf (rows : List Row) : (Thr.pinf, 0, 0) ∈ sweepSteps rows := by
-  simp [sweepSteps]
+  simp [sweepSteps, src_thrInitial]
 
 /-! ### confusion counts of a threshold operation -/
 
